@@ -46,6 +46,7 @@ type Report struct {
 	rules       map[string]string
 	start       time.Time
 	VerifDir    string
+	OutDir      string // where evidence is written (default: VerifDir)
 	Quiet       bool
 	fatal       []string
 	keyCount    map[string]int
@@ -184,7 +185,11 @@ func (r *Report) Finish() int {
 			unlisted = append(unlisted, *o)
 		}
 	}
-	evDir := filepath.Join(r.VerifDir, "evidence")
+	out := r.OutDir
+	if out == "" {
+		out = r.VerifDir
+	}
+	evDir := filepath.Join(out, "evidence")
 	_ = os.MkdirAll(evDir, 0o755)
 	replay := filepath.Join(evDir, r.Prop+".violations.json")
 	_ = os.Remove(replay)
